@@ -27,7 +27,11 @@ func c09Data(t *rapid.T) []string {
 }
 
 func c09Queued(t *rapid.T) []string {
-	switch weighted(t, "q", []int{14, 2, 2, 3, 1, 1, 1}) {
+	switch weighted(t, "q", []int{14, 2, 2, 3, 1, 1, 1, 6}) {
+	case 7:
+		// any command of the data families, as their own checks draw them: what it replies and does inside EXEC
+		// is what it replies and does outside
+		return pick(t, "fam", c02Step, c03Step, c04Step, c05Step, c06Keyspace, c06Failing)(t).Strs()
 	case 6:
 		return []string{"SELECT", pick(t, "qdb", "0", "1", "2")}
 	case 0:
